@@ -444,6 +444,8 @@ pub struct GenOpts {
     pub depth: u32,
     pub leaf_kinds: Vec<&'static str>,
     pub avoid_single_should_msm: bool,
+    /// generate ranges on the bool FAST field as well (recorded finding F34 repaired / under test)
+    pub bool_fast_range: bool,
 }
 
 impl GenOpts {
@@ -453,6 +455,7 @@ impl GenOpts {
             leaf_kinds: vec!["term", "term", "term", "tagterm", "phrase", "phrase", "pprefix", "range", "range", "irange", "srange", "orange", "set", "exists",
                              "all", "empty", "fuzzy", "regex", "rare", "absent"],
             avoid_single_should_msm: false,
+            bool_fast_range: false,
         }
     }
 }
@@ -533,7 +536,13 @@ pub fn gen_leaf(rng: &mut StdRng, o: &GenOpts) -> Value {
             match rng.random_range(0..5) {
                 0 => { let lo = rng.random_range(0..20i64); let hi = lo + rng.random_range(0..8); range_json(rng, "u", json!(lo), json!(hi)) }
                 1 => { let lo = rng.random_range(-11..11i64); let hi = lo + rng.random_range(0..8); range_json(rng, "fl", json!(lo), json!(hi)) }
-                2 => { let lo = rng.random_range(0..2i64); let hi = rng.random_range(lo..2); range_json(rng, "flagi", json!(lo), json!(hi)) }  // not "flag": RangeQuery on a bool FAST field returns InvalidArgument (reported finding)
+                2 => {
+                    let lo = rng.random_range(0..2i64);
+                    let hi = rng.random_range(lo..2);
+                    // "flag" (FAST) only when asked: RangeQuery on a bool FAST field returns InvalidArgument (recorded finding F34)
+                    let f = if o.bool_fast_range && rng.random_bool(0.5) { "flag" } else { "flagi" };
+                    range_json(rng, f, json!(lo), json!(hi))
+                }
                 3 => { let lo = rng.random_range(0..15i64); let hi = lo + rng.random_range(0..6); range_json(rng, "dt", json!(lo), json!(hi)) }
                 _ => { let lo = rng.random_range(0..15i64); let hi = lo + rng.random_range(0..6); range_json(rng, "ip", json!(lo), json!(hi)) }
             }
